@@ -306,10 +306,12 @@ class bicgstabl {
                     }
                 }
 
-                // Symmetrize MZa
+                // Fill the upper triangle: MZa(i,j) = (R[i], R[j]) = adjoint of MZa(j,i),
+                // so that MZa is the transpose of the (Hermitian) Gram matrix
+                // Z(i,j) = R[i]^H R[j]; the systems below are solved with Z = MZa^T.
                 for (int i = 0; i <= L; ++i) {
                     for (int j = i+1; j <= L; ++j) {
-                        MZa(i, j) = MZa(j, i) = math::adjoint(MZa(j, i));
+                        MZa(i, j) = math::adjoint(MZa(j, i));
                     }
                 }
 
@@ -318,17 +320,17 @@ class bicgstabl {
                 if (prm.convex || L == 1) {
                     Y0[0] = -one;
 
-                    qr.solve(L, L, MZa.stride(0), MZa.stride(1),
+                    qr.solve(L, L, MZa.stride(1), MZa.stride(0),
                             &MZa(1, 1), &MZb(0, 1), &Y0[1]);
                 } else {
                     Y0[0] = -one;
                     Y0[L] = zero;
-                    qr.solve(L-1, L-1, MZa.stride(0), MZa.stride(1),
+                    qr.solve(L-1, L-1, MZa.stride(1), MZa.stride(0),
                             &MZa(1, 1), &MZb(0, 1), &Y0[1]);
 
                     YL[0] = zero;
                     YL[L] = -one;
-                    qr.solve(L-1, L-1, MZa.stride(0), MZa.stride(1),
+                    qr.solve(L-1, L-1, MZa.stride(1), MZa.stride(0),
                             &MZa(1, 1), &MZb(L, 1), &YL[1], /*computed=*/true);
 
                     coef_type dot0 = zero;
@@ -340,8 +342,8 @@ class bicgstabl {
 
                         for(int j = 0; j <= L; ++j) {
                             coef_type M = MZb(i, j);
-                            s0 += M * Y0[j];
-                            sL += M * YL[j];
+                            s0 += M * math::adjoint(Y0[j]);
+                            sL += M * math::adjoint(YL[j]);
                         }
 
                         dot0 += Y0[i] * s0;
